@@ -148,15 +148,23 @@ def hermtoep_task(M, param):
 
 
 def toeplitz_task(M):
+    """TOEPLITZ uses no conjugation: its correctness is a polynomial identity, which holds over C iff it holds for
+    real indeterminates; complex symbols are used for M = 1 only (cost), real ones beyond"""
+    cxs = M <= 1
+
     def run(tc):
-        names = ["T0_r", "T0_i"] + sum((["c%d_r" % i, "c%d_i" % i, "w%d_r" % i, "w%d_i" % i] for i in range(M)), []) + \
-            sum((["z%d_r" % i, "z%d_i" % i] for i in range(M + 1)), [])
+        if cxs:
+            names = ["T0_r", "T0_i"] + sum((["c%d_r" % i, "c%d_i" % i, "w%d_r" % i, "w%d_i" % i] for i in range(M)), []) + \
+                sum((["z%d_r" % i, "z%d_i" % i] for i in range(M + 1)), [])
+        else:
+            names = ["T0"] + sum((["c%d" % i, "w%d" % i] for i in range(M)), []) + ["z%d" % i for i in range(M + 1)]
         dom, I = e3_interp(tc, names)
         E = E3(tc, dom, "toeplitz", {"M": M}, tc.seed)
-        T0 = dom.csym("T0")
-        TC = [dom.csym("c%d" % i) for i in range(M)]
-        TR = [dom.csym("w%d" % i) for i in range(M)]
-        Z = [dom.csym("z%d" % i) for i in range(M + 1)]
+        sym = dom.csym if cxs else (lambda n: Cx(dom.sym(n), 0))
+        T0 = sym("T0")
+        TC = [sym("c%d" % i) for i in range(M)]
+        TR = [sym("w%d" % i) for i in range(M)]
+        Z = [sym("z%d" % i) for i in range(M + 1)]
         mk = lambda l: Arr.from_items(l, dtype="complex")
         val = E.run(I, lambda I_: I_.call_qual("spectrum.toeplitz.TOEPLITZ", T0, mk(TC), mk(TR), mk(Z)))
         if val is None:
